@@ -119,7 +119,7 @@ func mkFreeCtx(o fop) (context.Context, context.CancelFunc) {
 	return context.WithTimeout(context.Background(), time.Second)
 }
 
-const ruleC17Free = "rapid-drawn program run on free goroutines and the real clock: netctx.Conn or connctx over net.Pipe (stream), netctx.PacketConn over a pair of loopback UDP sockets or over two sockets of a vnet router, or netctx.Conn over a dpipe pair (messages; the last two report timeouts with errors of their own, not os.ErrDeadlineExceeded); 1..2 directions, per direction 1..6 writes (1..40 bytes; context: 1 s / cancelled before / WithTimeout(d) / cancel() by a timer after d) and 1..6 reads (never a live context), pauses and d drawn from {0, 20, 50, 100, 200, 500 us, 2 ms} so that cancellation, arrival and completion collide; afterwards the reader keeps reading with fresh 20 ms contexts until everything reported written has arrived (these are the probe operations of the statement), then one more read must time out; oracle: 0 bytes with a done context => the context's error; n>0 => nil error (stream: short writes carry the wrapped error); bytes (stream) or messages (packets, in order) received == reported written, nothing beyond; after every returned operation the recorded deadline of the wrapped connection for that direction is zero; an operation returns within 2 s of its context firing; non-trivial = some operation transferred data although its context fired between its start and its return (measured with context.AfterFunc); distinct by hash of the program"
+const ruleC17Free = "rapid-drawn program run on free goroutines and the real clock: netctx.Conn or connctx over net.Pipe (stream), netctx.PacketConn over a pair of loopback UDP sockets or over two sockets of a vnet router, or netctx.Conn over a dpipe pair (messages; writes with live contexts only there, because a dpipe end discards its unread messages when a Write meets a passed deadline; the last two report timeouts with errors of their own, not os.ErrDeadlineExceeded); 1..2 directions, per direction 1..6 writes (1..40 bytes; context: 1 s / cancelled before / WithTimeout(d) / cancel() by a timer after d) and 1..6 reads (never a live context), pauses and d drawn from {0, 20, 50, 100, 200, 500 us, 2 ms} so that cancellation, arrival and completion collide; afterwards the reader keeps reading with fresh 20 ms contexts until everything reported written has arrived (these are the probe operations of the statement), then one more read must time out; oracle: 0 bytes with a done context => the context's error; n>0 => nil error (stream: short writes carry the wrapped error); bytes (stream) or messages (packets, in order) received == reported written, nothing beyond; after every returned operation the recorded deadline of the wrapped connection for that direction is zero; an operation returns within 2 s of its context firing; non-trivial = some operation transferred data although its context fired between its start and its return (measured with context.AfterFunc); distinct by hash of the program"
 
 func TestC17FreeRunning(t *testing.T) {
 	r := ev.New("C17", "free-running", ruleC17Free)
@@ -205,7 +205,16 @@ func TestC17FreeRunning(t *testing.T) {
 		plans := make([]plan, nd)
 		for d := range plans {
 			for i, n := 0, rapid.IntRange(1, 6).Draw(t, "nw"); i < n; i++ {
-				plans[d].w = append(plans[d].w, genFop(t, 1, 40, false))
+				w := genFop(t, 1, 40, false)
+				if flavour == 4 {
+					// a dpipe end empties its buffer of written, not yet read messages when a
+					// Write meets a passed write deadline (dpipe.cleanWriteBuffer): it is not a
+					// lossless wrapped connection under cancelled writes, and "bytes received ==
+					// bytes reported written" is a statement about the wrappers, not about it.
+					// Writes run with live contexts here; the reads are cancelled as usual.
+					w.ctx = fcLong
+				}
+				plans[d].w = append(plans[d].w, w)
 			}
 			for i, n := 0, rapid.IntRange(1, 6).Draw(t, "nr"); i < n; i++ {
 				lo := 1
